@@ -399,6 +399,7 @@ static const char *fixup_syms[] = {
 	"execl",      "execlp",	       "execle",  "execv",     "execve",      "execvp",
 	"execvpe",    "setjmp",	       "_setjmp", "sigsetjmp", "__sigsetjmp", "longjmp",
 	"siglongjmp", "__longjmp_chk", "fork",	  "vfork",     "daemon",      "posix.fork",
+	"_longjmp",
 };
 
 static int setjmp_depth;
